@@ -222,6 +222,7 @@ static size_t test_harness_c_strlen(const char * str)
 static char* strdup_alloc(const char * str, size_t size, const char* file, size_t line)
 {
     char* result = (char*) cpputest_malloc_location(size, file, line);
+    if (result == NULLPTR) return NULLPTR;
     PlatformSpecificMemCpy(result, str, size);
     result[size-1] = '\0';
     return result;
